@@ -22,16 +22,41 @@ fn scratch_dir(tag: &str) -> std::path::PathBuf {
 /// one case: format, the mutation class (for signatures), the bytes of the main document, extra files (CSV)
 pub struct Case { pub format: &'static str, pub class: String, pub main: Vec<u8>, pub extra: Vec<(String, Vec<u8>)> }
 
-fn base_store(seed: u64, i: usize) -> AnnotationStore {
+/// the store, and what the script itself says each successfully added annotation with plain begin-aligned text
+/// selectors selects (an expectation that does not pass through the library)
+fn base_store(seed: u64, i: usize) -> (AnnotationStore, Vec<(String, Vec<(String, usize, usize)>)>) {
     let mut g = Gen::new(seed.wrapping_mul(17_000_023).wrapping_add(i as u64));
     g.rich = true;
     g.force_ids = i % 2 == 0;
-    let mut script: Vec<String> = if i % 3 == 2 { crate::fam::store::scenario(&mut g) } else { vec![] };
+    let mut script: Vec<String> = if i % 2 == 1 { crate::fam::store::scenario(&mut g) } else { vec![] };
     let nops = 6 + g.rng.below(20);
     script.extend((0..nops).map(|_| g.op()));
+    if i % 5 == 0 {
+        // selections whose per-resource handles line up across two resources (j in one, j+1 in the other) inside one
+        // complex selector: the shape internal range compression must not merge
+        let j = g.rng.below(3);
+        script.push("st addres xa 30".into());
+        script.push("st addres xb 30".into());
+        for k in 0..j { script.push(format!("st annot xa{} T:xa:b{}:b{}", k, k, k + 2)); }
+        for k in 0..j + 1 { script.push(format!("st annot xb{} T:xb:b{}:b{}", k, k, k + 3)); }
+        let kind = *g.rng.pick(&['M', 'C', 'X']);
+        script.push(format!("st annot xc {}[T:xa:b10:b12;T:xb:b14:b17;T:xa:b20:b21]", kind));
+    }
     let mut ex = Exec::new();
-    for l in &script { ex.exec(l); }
-    ex.store
+    let mut expect: Vec<(String, Vec<(String, usize, usize)>)> = vec![];
+    for l in &script {
+        let out = ex.exec(l);
+        let t: Vec<&str> = l.split_whitespace().collect();
+        if t.len() >= 4 && t[1] == "annot" && t[2] != "~" && out.starts_with("ok") {
+            let tgt = t[3];
+            let inner = if tgt.len() > 3 && tgt[1..].starts_with('[') && tgt.ends_with(']') { &tgt[2..tgt.len() - 1] } else { tgt };
+            let mut sels = vec![];
+            let ok = inner.split(';').filter(|x| !x.is_empty()).all(|p| { let q: Vec<&str> = p.split(':').collect(); if q.len() == 4 && q[0] == "T" && q[2].starts_with('b') && q[3].starts_with('b') { match (q[2][1..].parse::<usize>(), q[3][1..].parse::<usize>()) { (Ok(b), Ok(e)) => { sels.push((q[1].to_string(), b, e)); true } _ => false } } else { false } });
+            if ok && !sels.is_empty() { sels.sort(); expect.retain(|x| x.0 != t[2]); expect.push((t[2].to_string(), sels)); }
+        }
+        if t.len() >= 3 && (t[1] == "rmann" || t[1] == "rmres" || t[1] == "rmdata" || t[1] == "rmkey" || t[1] == "rmset" || t[1] == "stripann" || t[1] == "reindex") { expect.clear(); }
+    }
+    (ex.store, expect)
 }
 
 const HOSTILE_VALUES: &[&str] = &["null", "[]", "{}", "true", "0", "-1", "99999999999999999999", "18446744073709551615", "9223372036854775808", "1e308", "1e999", "-0", "\"\"", "\"!A0\"", "\"!A7\"", "\"!A99999999999\"", "\"!D18446744073709551615\"", "\"!R3\"", "\"!S1\"", "\"!K2\"", "\"!\"", "\"!A\"", "\"!A-1\"", "\"!\u{e9}1\"", "\"nope\"", "[[[[[[]]]]]]", "{\"@type\": \"TextSelector\"}", "\"\\ud800\""];
@@ -128,13 +153,50 @@ fn mutate_csv(rng: &mut Rng, doc: &str) -> (String, String) {
 fn mutate_bytes(rng: &mut Rng, doc: &[u8]) -> (String, Vec<u8>) {
     let mut b = doc.to_vec();
     if b.is_empty() { return ("unchanged".into(), b); }
-    match rng.below(6) {
+    match rng.below(9) {
+        6 | 7 | 8 => {
+            // a length header (array, map, byte or text string with a short length) turned into its 4- or 8-byte form:
+            // the bytes that follow are then read as a huge count
+            let cands: Vec<usize> = b.iter().enumerate().filter(|(_, x)| matches!(**x, 0x80..=0x97 | 0xa0..=0xb7 | 0x40..=0x57 | 0x60..=0x77)).map(|(i, _)| i).collect();
+            if cands.is_empty() { return ("unchanged".into(), b); }
+            let i = *rng.pick(&cands);
+            b[i] = (b[i] & 0xe0) | if rng.chance(50) { 0x1a } else { 0x1b };
+            ("length-header-inflated".into(), b)
+        }
         0 => { let n = rng.below(b.len() + 1); b.truncate(n); ("truncated".into(), b) }
         1 | 2 => { let i = rng.below(b.len()); b[i] ^= 1 << rng.below(8); ("bit-flipped".into(), b) }
         3 => { for _ in 0..(2 + rng.below(6)) { let i = rng.below(b.len()); b[i] = rng.below(256) as u8; } ("bytes-replaced".into(), b) }
         4 => { let i = rng.below(b.len()); let k = rng.below(9); for j in 0..k { if i + j < b.len() { b[i + j] = 0xff; } } ("ff-run".into(), b) }
         _ => { let i = rng.below(b.len()); let n = 1 + rng.below(4); let e = (i + n).min(b.len()); b.drain(i..e); ("bytes-deleted".into(), b) }
     }
+}
+
+/// what a STAM JSON document itself says about the text its annotations select: for every annotation with a
+/// public identifier whose target consists of text selectors with begin-aligned cursors only, the selected ranges
+fn document_expectation(doc: &str) -> Vec<(String, Vec<(String, usize, usize)>)> {
+    let v: serde_json::Value = match serde_json::from_str(doc) { Ok(v) => v, Err(_) => return vec![] };
+    fn collect(t: &serde_json::Value, out: &mut Vec<(String, usize, usize)>) -> bool {
+        match t.get("@type").and_then(|x| x.as_str()) {
+            Some("TextSelector") => {
+                let res = t.get("resource").and_then(|x| x.as_str());
+                let cur = |k: &str| t.get("offset").and_then(|o| o.get(k)).and_then(|c| if c.get("@type").and_then(|x| x.as_str()) == Some("BeginAlignedCursor") { c.get("value").and_then(|x| x.as_u64()) } else { None });
+                match (res, cur("begin"), cur("end")) { (Some(r), Some(b), Some(e)) => { out.push((r.to_string(), b as usize, e as usize)); true } _ => false }
+            }
+            Some("MultiSelector") | Some("CompositeSelector") | Some("DirectionalSelector") => t.get("selectors").and_then(|x| x.as_array()).map(|a| a.iter().all(|s| collect(s, out))).unwrap_or(false),
+            _ => false,
+        }
+    }
+    let mut res = vec![];
+    if let Some(anns) = v.get("annotations").and_then(|x| x.as_array()) {
+        for a in anns {
+            if let (Some(id), Some(t)) = (a.get("@id").and_then(|x| x.as_str()), a.get("target")) {
+                if id.starts_with('!') { continue; }
+                let mut out = vec![];
+                if collect(t, &mut out) { out.sort(); res.push((id.to_string(), out)); }
+            }
+        }
+    }
+    res
 }
 
 /// outcome of loading one case: "ok" (consistent store), "err", "panic:<loc>", "inconsistent:<sig>"
@@ -157,7 +219,22 @@ fn load_case(dir: &std::path::Path, case: &Case) -> String {
             // what came back must be a store: observable, index-consistent, serialisable
             match guarded(std::panic::AssertUnwindSafe(|| { let o = observe(&store); let c = consistency(&store); let j = store.to_json_string(&Config::default()).is_ok(); (o.len(), c, j) })) {
                 Err(m) => format!("loaded-store-panics:{}:{}", last_panic_loc(), m.chars().take(60).collect::<String>().replace('\n', " ")),
-                Ok((_, c, j)) => if let Some((sig, detail)) = c.iter().find(|x| !x.0.starts_with("vocabulary") && x.0 != "index/key-data") { format!("inconsistent:{}|{}", sig, detail.chars().take(160).collect::<String>().replace('\n', " ").replace('\t', " ")) } else if !j { "unserialisable".into() } else { "ok".into() },
+                Ok((_, c, j)) => if let Some(d) = case.extra.iter().find(|f| f.0 == "__expect__").and_then(|f| String::from_utf8_lossy(&f.1).lines().find_map(|l| {
+                        let (id, sels) = l.split_once('|')?;
+                        let mut want: Vec<(String, usize, usize)> = sels.split('+').filter_map(|x| { let q: Vec<&str> = x.rsplitn(3, '.').collect(); if q.len() == 3 { Some((q[2].to_string(), q[1].parse().ok()?, q[0].parse().ok()?)) } else { None } }).collect();
+                        want.sort();
+                        let a = store.annotation(id)?;
+                        let mut got: Vec<(String, usize, usize)> = a.textselections().map(|t| (t.resource().id().unwrap_or("?").to_string(), t.begin(), t.end())).collect();
+                        got.sort();
+                        if got != want { Some(format!("{}: requested {:?} store {:?}", id, want, got)) } else { None }
+                    })) { format!("differs-from-what-was-annotated:{}", d.chars().take(200).collect::<String>()) }
+                    else if let Some(d) = (if case.format == "json" { std::str::from_utf8(&case.main).ok().map(document_expectation).unwrap_or_default() } else { vec![] }).into_iter().find_map(|(id, want)| {
+                        let a = store.annotation(id.as_str())?;
+                        let mut got: Vec<(String, usize, usize)> = a.textselections().map(|t| (t.resource().id().unwrap_or("?").to_string(), t.begin(), t.end())).collect();
+                        got.sort();
+                        if got != want { Some(format!("{}: document {:?} store {:?}", id, want, got)) } else { None }
+                    }) { format!("differs-from-document:{}", d.chars().take(200).collect::<String>().replace('\n', " ")) }
+                    else if let Some((sig, detail)) = c.iter().find(|x| !x.0.starts_with("vocabulary") && x.0 != "index/key-data") { format!("inconsistent:{}|{}", sig, detail.chars().take(160).collect::<String>().replace('\n', " ").replace('\t', " ")) } else if !j { "unserialisable".into() } else { "ok".into() },
             }
         }
     }
@@ -265,14 +342,17 @@ pub fn run(opts: &Opts) -> Report {
          non-trivial = the mutant still loads (the store oracles then apply); distinct = distinct mutant documents",
     );
     let mut rng = Rng::new(opts.seed.wrapping_mul(19_000_003));
-    let nbase = if opts.thorough() { 120 } else { 20 };
-    let per = if opts.thorough() { 60 } else { 30 };
+    let nbase = if opts.thorough() { 160 } else { 40 };
+    let per = if opts.thorough() { 60 } else { 20 };
     let dir = scratch_dir("p");
     let mut cases: Vec<Case> = vec![];
     for i in 0..nbase {
-        let mut store = base_store(opts.seed, i);
+        let (mut store, expect) = base_store(opts.seed, i);
+        let expect_file: Vec<(String, Vec<u8>)> = if expect.is_empty() { vec![] } else { vec![("__expect__".to_string(), expect.iter().map(|(id, v)| format!("{}|{}", id, v.iter().map(|(r, b, e)| format!("{}.{}.{}", r, b, e)).collect::<Vec<_>>().join("+"))).collect::<Vec<_>>().join("\n").into_bytes())] };
         // ---- JSON
         if let Ok(js) = store.to_json_string(&Config::default()) {
+            // the unmutated document: it must load, and what loads must be a store
+            cases.push(Case { format: "json", class: "json/valid".into(), main: js.clone().into_bytes(), extra: expect_file.clone() });
             for _ in 0..per {
                 let (class, m) = mutate_text(&mut rng, &js);
                 cases.push(Case { format: "json", class: format!("json/{}", class), main: m.into_bytes(), extra: vec![] });
@@ -302,6 +382,7 @@ pub fn run(opts: &Opts) -> Report {
         let p = dir.join(format!("b{}.store.stam.cbor", i));
         if store.to_file(p.to_str().unwrap()).is_ok() {
             if let Ok(b) = std::fs::read(&p) {
+                cases.push(Case { format: "cbor", class: "cbor/valid".into(), main: b.clone(), extra: expect_file.clone() });
                 for _ in 0..per / 2 {
                     let (class, m) = mutate_bytes(&mut rng, &b);
                     cases.push(Case { format: "cbor", class: format!("cbor/{}", class), main: m, extra: vec![] });
@@ -309,6 +390,36 @@ pub fn run(opts: &Opts) -> Report {
             }
         }
         std::fs::remove_file(&p).ok();
+    }
+    // hand-written hostile documents (references to empty slots, to themselves, to later items; empty structures)
+    let res = "{\"@type\": \"TextResource\", \"@id\": \"r\", \"text\": \"hello world\"}";
+    let tsel = "{\"@type\": \"TextSelector\", \"resource\": \"r\", \"offset\": {\"@type\": \"Offset\", \"begin\": {\"@type\": \"BeginAlignedCursor\", \"value\": 0}, \"end\": {\"@type\": \"BeginAlignedCursor\", \"value\": 5}}}";
+    let set = |data: &str| format!("{{\"@type\": \"AnnotationDataSet\", \"@id\": \"s\", \"keys\": [{{\"@type\": \"DataKey\", \"@id\": \"k\"}}], \"data\": [{}]}}", data);
+    let d = |id: &str| format!("{{\"@type\": \"AnnotationData\", \"@id\": \"{}\", \"key\": \"k\", \"value\": {{\"@type\": \"String\", \"value\": \"v\"}}}}", id);
+    let dref = |id: &str| format!("{{\"@type\": \"AnnotationData\", \"@id\": \"{}\", \"set\": \"s\"}}", id);
+    let dinline = |id: &str| format!("{{\"@type\": \"AnnotationData\", \"@id\": \"{}\", \"set\": \"s\", \"key\": \"k\", \"value\": {{\"@type\": \"String\", \"value\": \"w\"}}}}", id);
+    let ann = |id: &str, target: &str, data: &str| format!("{{\"@type\": \"Annotation\", \"@id\": \"{}\", \"target\": {}, \"data\": [{}]}}", id, target, data);
+    let store_doc = |sets: &str, anns: &str| format!("{{\"@type\": \"AnnotationStore\", \"annotationsets\": [{}], \"resources\": [{}], \"annotations\": [{}]}}", sets, res, anns);
+    let asel = |id: &str| format!("{{\"@type\": \"AnnotationSelector\", \"annotation\": \"{}\"}}", id);
+    let crafted: Vec<(&str, String)> = vec![
+        ("temp-id-to-empty-slot/inline-data", store_doc(&set(&d("!D3")), &ann("a", tsel, &dinline("!D1")))),
+        ("temp-id-to-empty-slot/data-reference", store_doc(&set(&d("!D3")), &ann("a", tsel, &dref("!D1")))),
+        ("temp-id-to-empty-slot/annotation-reference", store_doc(&set(&d("d")), &format!("{}, {}", ann("!A3", tsel, &dref("d")), ann("b", &asel("!A1"), &dref("d"))))),
+        ("temp-id-beyond-end/data-reference", store_doc(&set(&d("d")), &ann("a", tsel, &dref("!D9")))),
+        ("temp-id-beyond-end/annotation-reference", store_doc(&set(&d("d")), &ann("a", &asel("!A9"), &dref("d")))),
+        ("self-reference", store_doc(&set(&d("d")), &ann("a", &asel("a"), &dref("d")))),
+        ("forward-reference", store_doc(&set(&d("d")), &format!("{}, {}", ann("a", &asel("b"), &dref("d")), ann("b", tsel, &dref("d"))))),
+        ("temp-id-decreasing", store_doc(&set(&format!("{}, {}", d("!D3"), d("!D1"))), &ann("a", tsel, &dref("!D3")))),
+        ("duplicate-ids", store_doc(&set(&format!("{}, {}", d("d"), d("d"))), &format!("{}, {}", ann("a", tsel, &dref("d")), ann("a", tsel, &dref("d"))))),
+        ("empty-complex-selector", store_doc(&set(&d("d")), &ann("a", "{\"@type\": \"MultiSelector\", \"selectors\": []}", &dref("d")))),
+        ("nested-complex-selector", store_doc(&set(&d("d")), &ann("a", &format!("{{\"@type\": \"MultiSelector\", \"selectors\": [{{\"@type\": \"CompositeSelector\", \"selectors\": [{}]}}]}}", tsel), &dref("d")))),
+        ("key-of-other-set", store_doc(&set(&d("d")), &ann("a", "{\"@type\": \"DataKeySelector\", \"set\": \"nope\", \"key\": \"k\"}", &dref("d")))),
+        ("temp-key-id", store_doc(&set(&d("d")), &ann("a", "{\"@type\": \"DataKeySelector\", \"set\": \"s\", \"key\": \"!K7\"}", &dref("d")))),
+        ("temp-resource-id", store_doc(&set(&d("d")), &ann("a", "{\"@type\": \"ResourceSelector\", \"resource\": \"!R5\"}", &dref("d")))),
+        ("temp-set-id", store_doc(&set(&d("d")), &ann("a", "{\"@type\": \"DataSetSelector\", \"set\": \"!S5\"}", &dref("d")))),
+    ];
+    for (name, doc) in crafted {
+        cases.push(Case { format: "json", class: format!("json/crafted/{}", name), main: doc.into_bytes(), extra: vec![] });
     }
     // run in batches
     let bs = 300;
@@ -330,6 +441,10 @@ pub fn run(opts: &Opts) -> Report {
             } else if o.starts_with("loaded-store-panics") {
                 let loc = o.split(':').nth(1).unwrap_or("?").to_string() + ":" + o.split(':').nth(2).unwrap_or("?");
                 rep.fail("panic", &format!("C19/{}/loaded-store-panics/{}", c.format, loc), doc(), "a usable store or an error", o);
+            } else if o.starts_with("differs-from-what-was-annotated") {
+                rep.fail("oracle", &format!("C19/{}/loaded-store-differs-from-what-was-annotated", c.format), doc(), "the text selections the annotations were created with", o);
+            } else if o.starts_with("differs-from-document") {
+                rep.fail("oracle", &format!("C19/{}/loaded-store-differs-from-document", c.format), doc(), "the text selections the document names", o);
             } else if o.starts_with("inconsistent") {
                 rep.fail("oracle", &format!("C19/{}/loaded-store-{}", c.format, o.split('|').next().unwrap_or("").replace(':', "/")), doc(), "a consistent store or an error", o);
             } else if o.starts_with("abort") || o.starts_with("hang") {
